@@ -671,7 +671,7 @@ fn main() {
                 let af = a.to_f64().unwrap_or(f64::NAN);
                 for f in fl.iter().filter(|f| {
                     let x = f.to_f64().unwrap();
-                    af.is_finite() && (x.to_bits() as i64 - af.to_bits() as i64).abs() <= 2
+                    af.is_finite() && (x.to_bits() as i128 - af.to_bits() as i128).abs() <= 2
                 }) {
                     for (op, sp) in CMP_OPS.iter().zip(SCM_CMP.iter()) {
                         out.num2(op, a, f, true);
